@@ -19,7 +19,6 @@ structure Opened (B B1 : BState) (new : Scope) : Prop where
   sigs : B1.sigs = B.sigs
   nextId : B1.nextId = B.nextId + 1
   last : B1.lastCond = B.lastCond
-  clash : B1.clash = B.clash
   ext : Ext B.nodes B1.nodes
 
 /-- opening a scope on `B` whose nodes were extended to `ns` (by evaluating the condition) -/
@@ -32,8 +31,8 @@ theorem opened_push {B : BState} (hw : WF B) {ns : Nodes} (e : Ext B.nodes ns) {
         | [] => valAt ρ ns cond
         | parent :: _ => [truthy (valAt ρ ns cond) && truthy (valAt ρ ns parent.full)] := by
   have hw0 : WF { B with nodes := ns } := hw.withNodes e
-  obtain ⟨full, h1, h2, h3, h4, h5, h6, h7, h8⟩ := pushScope_spec (ρ := ρ) { B with nodes := ns } cond oe cb
-  refine ⟨_, ⟨pushScope_wf hw0 hc hoe hcb, h1, rfl, h3, h2, h4, h5, e.trans h6⟩, rfl, rfl, rfl, h6, ?_⟩
+  obtain ⟨full, h1, h2, h3, h4, h6, h7, h8⟩ := pushScope_spec (ρ := ρ) { B with nodes := ns } cond oe cb
+  refine ⟨_, ⟨pushScope_wf hw0 hc hoe hcb, h1, rfl, h3, h2, h4, e.trans h6⟩, rfl, rfl, rfl, h6, ?_⟩
   exact h8 hc (fun sc hsc => (hw0.scopes sc hsc).full)
 
 theorem agree_take {ns : Nodes} {sigs : List Sig} {env : List Val} (h : Agree ρ ns sigs env) (n : Nat) :
@@ -48,10 +47,10 @@ theorem agree_take {ns : Nodes} {sigs : List Sig} {env : List Val} (h : Agree ρ
 /-- closing a scope whose block was skipped -/
 theorem pop_dead {B B1 B2 B3 : BState} {new : Scope} (hw : WF B) (ho : Opened B B1 new) (hw2 : WF B2) (hf : Frame B1 B2)
     (hk : Keeps ρ new.id B1 B2) (hp : popScope B2 B.sigs.length = some B3) :
-    WF B3 ∧ Frame B B3 ∧ Keeps ρ B.nextId B B3 ∧ B3.clash = B2.clash := by
+    WF B3 ∧ Frame B B3 ∧ Keeps ρ B.nextId B B3 := by
   have hs2 : B2.scopes = new :: B.scopes := by rw [hf.scopes, ho.scopes]
-  obtain ⟨p1, p2, p3, p4, p5, _⟩ := popScope_spec hs2 hp
-  refine ⟨(popScope_wf hw2 hp).1, ⟨(ho.ext.trans hf.ext).trans p5, p1, ?_⟩, ?_, p4⟩
+  obtain ⟨p1, p2, p3, p5, _⟩ := popScope_spec hs2 hp
+  refine ⟨(popScope_wf hw2 hp).1, ⟨(ho.ext.trans hf.ext).trans p5, p1, ?_⟩, ?_⟩
   · rw [p3]; exact Nat.le_trans (by rw [ho.nextId]; exact Nat.le_succ _) hf.nextId
   · intro x s hx hlt
     obtain ⟨s2, a1, a2, a3, a4⟩ := hk x s (by rw [ho.sigs]; exact hx) (by rw [ho.id]; exact hlt)
@@ -80,10 +79,10 @@ theorem pop_sigs_length {B B1 B2 B3 : BState} {new : Scope} (ho : Opened B B1 ne
 /-- closing a scope whose block was executed -/
 theorem pop_active {B B1 B2 B3 : BState} {new : Scope} {envb : List Val} (ho : Opened B B1 new) (hw2 : WF B2) (hf : Frame B1 B2)
     (ha : Agree ρ B2.nodes B2.sigs envb) (hp : popScope B2 B.sigs.length = some B3) :
-    WF B3 ∧ Frame B B3 ∧ Agree ρ B3.nodes B3.sigs (envb.take B.sigs.length) ∧ B3.clash = B2.clash := by
+    WF B3 ∧ Frame B B3 ∧ Agree ρ B3.nodes B3.sigs (envb.take B.sigs.length) := by
   have hs2 : B2.scopes = new :: B.scopes := by rw [hf.scopes, ho.scopes]
-  obtain ⟨p1, p2, p3, p4, p5, _⟩ := popScope_spec hs2 hp
-  refine ⟨(popScope_wf hw2 hp).1, ⟨(ho.ext.trans hf.ext).trans p5, p1, ?_⟩, ?_, p4⟩
+  obtain ⟨p1, p2, p3, p5, _⟩ := popScope_spec hs2 hp
+  refine ⟨(popScope_wf hw2 hp).1, ⟨(ho.ext.trans hf.ext).trans p5, p1, ?_⟩, ?_⟩
   · rw [p3]; exact Nat.le_trans (by rw [ho.nextId]; exact Nat.le_succ _) hf.nextId
   · rw [p2]
     exact agree_take (ha.mono hw2.sigs p5) _
@@ -193,27 +192,6 @@ theorem openElseIf_spec {B B1 : BState} {c : Expr} (h : openElseIf B c = some B1
             rw [valAt_ext e3 hp]
       · simp at h'
 
-/-- the ghost flag changes nothing else -/
-theorem noteClash_fields (l : Nat) (B4 B5 : BState) :
-    (noteClash l B4 B5).nodes = B5.nodes ∧ (noteClash l B4 B5).sigs = B5.sigs ∧ (noteClash l B4 B5).scopes = B5.scopes ∧
-    (noteClash l B4 B5).lastCond = B5.lastCond ∧ (noteClash l B4 B5).nextId = B5.nextId := by
-  unfold noteClash; split <;> simp
-
-theorem noteClash_wf {l : Nat} {B4 B5 : BState} (h : WF B5) : WF (noteClash l B4 B5) := by
-  obtain ⟨a, b, c, d, e⟩ := noteClash_fields l B4 B5
-  exact ⟨by rw [a, b]; exact h.sigs, by rw [b, e]; exact h.sigInit, by rw [c, a, e]; exact h.scopes, by rw [d, a]; exact h.last,
-    by rw [e]; exact h.pos⟩
-
-theorem noteClash_frame {l : Nat} {B B4 B5 : BState} (h : Frame B B5) : Frame B (noteClash l B4 B5) := by
-  obtain ⟨a, _, c, _, e⟩ := noteClash_fields l B4 B5
-  exact ⟨by rw [a]; exact h.ext, by rw [c]; exact h.scopes, by rw [e]; exact h.nextId⟩
-
-theorem noteClash_keeps {l tid : Nat} {B B4 B5 : BState} (h : Keeps ρ tid B B5) : Keeps ρ tid B (noteClash l B4 B5) := by
-  obtain ⟨a, b, _, _, _⟩ := noteClash_fields l B4 B5
-  intro x s hx hlt
-  obtain ⟨s', h1, h2, h3, h4⟩ := h x s hx hlt
-  exact ⟨s', by rw [b]; exact h1, h2, h3, by rw [a]; exact h4⟩
-
 /-! ### a skipped block -/
 
 theorem dead_full_persist {B B1 : BState} {top : Scope} {rest : List Scope} (hw : WF B) (hsc : B.scopes = top :: rest)
@@ -237,7 +215,7 @@ theorem build_dead (p : Prog) : ∀ (B B' : BState) (top : Scope) (rest : List S
     | none => simp [h1] at h
     | some B1 =>
       simp only [h1, Option.bind_some] at h
-      obtain ⟨w1, f1, _, _, ns, i, _, _, hs⟩ := stepDecl_frame h1 hw
+      obtain ⟨w1, f1, _, ns, i, _, _, hs⟩ := stepDecl_frame h1 hw
       obtain ⟨s1, d1⟩ := dead_full_persist hw hsc hd f1
       obtain ⟨w2, f2, k2, l2⟩ := ihk B1 B' top rest h w1 s1 d1
       exact ⟨w2, f1.trans f2, (stepDecl_keeps top.id h1 hw).trans k2, by rw [hs] at l2; simp at l2; omega⟩
@@ -248,7 +226,7 @@ theorem build_dead (p : Prog) : ∀ (B B' : BState) (top : Scope) (rest : List S
     | none => simp [h1] at h
     | some B1 =>
       simp only [h1, Option.bind_some] at h
-      obtain ⟨w1, f1, _, _, _, s, hs, _⟩ := stepDefault_frame (ρ := ρ) h1 hw
+      obtain ⟨w1, f1, _, _, s, hs, _⟩ := stepDefault_frame (ρ := ρ) h1 hw
       obtain ⟨s1, d1⟩ := dead_full_persist hw hsc hd f1
       obtain ⟨w2, f2, k2, l2⟩ := ihk B1 B' top rest h w1 s1 d1
       exact ⟨w2, f1.trans f2, (stepDefault_keeps top.id h1 hw).trans k2, by rw [hs] at l2; simp at l2; omega⟩
@@ -259,7 +237,7 @@ theorem build_dead (p : Prog) : ∀ (B B' : BState) (top : Scope) (rest : List S
     | none => simp [h1] at h
     | some B1 =>
       simp only [h1, Option.bind_some] at h
-      obtain ⟨w1, f1, _, _, hl⟩ := stepAssign_frame h1 hw
+      obtain ⟨w1, f1, _, hl⟩ := stepAssign_frame h1 hw
       obtain ⟨s1, d1⟩ := dead_full_persist hw hsc hd f1
       obtain ⟨w2, f2, k2, l2⟩ := ihk B1 B' top rest h w1 s1 d1
       exact ⟨w2, f1.trans f2, (stepAssign_dead h1 hw hsc hd).trans k2, by omega⟩
@@ -283,7 +261,7 @@ theorem build_dead (p : Prog) : ∀ (B B' : BState) (top : Scope) (rest : List S
           have hnd : valAt ρ B1.nodes new.full = [false] := by
             rw [fv, hsc]; simp only; rw [valAt_ext e1 hfull, hd]; simp [truthy]
           obtain ⟨w2, f2, k2, l2⟩ := ihb B1 B2 new (B.scopes) h2 o1.wf o1.scopes hnd
-          obtain ⟨w3, f3, k3, _⟩ := pop_dead hw o1 w2 f2 k2 h3
+          obtain ⟨w3, f3, k3⟩ := pop_dead hw o1 w2 f2 k2 h3
           have hl3 := pop_sigs_length o1 f2 l2 h3
           obtain ⟨s3, d3⟩ := dead_full_persist hw hsc hd f3
           obtain ⟨w4, f4, k4, l4⟩ := ihk B3 B' top rest h w3 s3 d3
@@ -314,7 +292,7 @@ theorem build_dead (p : Prog) : ∀ (B B' : BState) (top : Scope) (rest : List S
             have hnd : valAt ρ (pushElse B l).nodes new.full = [false] := by
               rw [fv, hsc]; simp only; rw [hd]; simp [truthy]
             obtain ⟨w2, f2, k2, l2⟩ := ihb _ B2 new (B.scopes) h2 o1.wf o1.scopes hnd
-            obtain ⟨w3, f3, k3, _⟩ := pop_dead hw o1 w2 f2 k2 h3
+            obtain ⟨w3, f3, k3⟩ := pop_dead hw o1 w2 f2 k2 h3
             have hl3 := pop_sigs_length o1 f2 l2 h3
             obtain ⟨s3, d3⟩ := dead_full_persist hw hsc hd f3
             obtain ⟨w4, f4, k4, l4⟩ := ihk B3 B' top rest h w3 s3 d3
@@ -339,7 +317,7 @@ theorem build_dead (p : Prog) : ∀ (B B' : BState) (top : Scope) (rest : List S
           have hnd : valAt ρ B1.nodes new.full = [false] := by
             rw [fv, hsc]; simp only; rw [hd]; simp [truthy]
           obtain ⟨w2, f2, k2, l2⟩ := ihb B1 B2 new (B.scopes) h2 o1.wf o1.scopes hnd
-          obtain ⟨w3, f3, k3, _⟩ := pop_dead hw o1 w2 f2 k2 h3
+          obtain ⟨w3, f3, k3⟩ := pop_dead hw o1 w2 f2 k2 h3
           have hl3 := pop_sigs_length o1 f2 l2 h3
           obtain ⟨s3, d3⟩ := dead_full_persist hw hsc hd f3
           obtain ⟨w4, f4, k4, l4⟩ := ihk B3 B' top rest h w3 s3 d3
@@ -378,18 +356,14 @@ theorem build_dead (p : Prog) : ∀ (B B' : BState) (top : Scope) (rest : List S
                 rw [fvi, o1.scopes]; simp only; rw [valAt_ext e1 hefull, hed]; simp [truthy]
               obtain ⟨w3, f3, k3, l3⟩ := ihb B2 B3 i _ h2 oi.wf oi.scopes hid
               have h3' : popScope B3 (pushElse B l).sigs.length = some B4 := by rw [o1.sigs]; exact h3
-              obtain ⟨w4, f4, k4, _⟩ := pop_dead o1.wf oi w3 f3 k3 h3'
+              obtain ⟨w4, f4, k4⟩ := pop_dead o1.wf oi w3 f3 k3 h3'
               have hl4 := pop_sigs_length oi f3 l3 h3'
               have k4' : Keeps ρ e.id (pushElse B l) B4 := k4.weaken (by rw [o1.id, o1.nextId]; exact Nat.le_succ _)
-              obtain ⟨w5, f5, k5, _⟩ := pop_dead hw o1 w4 f4 k4' h4
+              obtain ⟨w5, f5, k5⟩ := pop_dead hw o1 w4 f4 k4' h4
               have hl5 := pop_sigs_length o1 f4 (by rw [hl4]; exact Nat.le_refl _) h4
-              have w6 : WF (noteClash l B4 B5) := noteClash_wf w5
-              have f6 : Frame B (noteClash l B4 B5) := noteClash_frame f5
-              have k6 : Keeps ρ B.nextId B (noteClash l B4 B5) := noteClash_keeps k5
-              obtain ⟨s6, d6⟩ := dead_full_persist hw hsc hd f6
-              obtain ⟨w7, f7, k7, l7⟩ := ihk _ B' top rest h w6 s6 d6
+              obtain ⟨s6, d6⟩ := dead_full_persist hw hsc hd f5
+              obtain ⟨w7, f7, k7, l7⟩ := ihk _ B' top rest h w5 s6 d6
               have hlt : top.id ≤ B.nextId := Nat.le_of_lt (hw.scopes top (by rw [hsc]; exact List.mem_cons_self)).id
-              have hl6 : (noteClash l B4 B5).sigs.length = B.sigs.length := by rw [(noteClash_fields l B4 B5).2.1]; exact hl5
-              exact ⟨w7, f6.trans f7, (k6.weaken hlt).trans k7, by omega⟩
+              exact ⟨w7, f5.trans f7, (k5.weaken hlt).trans k7, by omega⟩
 
 end Gatery.C05
